@@ -1,4 +1,5 @@
 import OpcuaVerif.Model.C17
+import OpcuaVerif.Generated.CryptoPolicy
 
 /-!
 C17 — Signature data verifies exactly when made by the right key over the right data.
@@ -234,6 +235,30 @@ theorem cross_policy (w : World) (key ks : Nat) (fresh : Bytes) (p p' : Policy) 
   · intro he
     rw [verify_good_iff]
     exact ⟨h, pd, by rw [he, ha], by simp⟩
+
+/-! ### the model's per-policy algorithm selection is the one in the source (translator T2) -/
+
+def Policy.rustName : Policy → String
+  | .none => "None" | .basic128Rsa15 => "Basic128Rsa15" | .basic256 => "Basic256"
+  | .basic256Sha256 => "Basic256Sha256" | .aes128Sha256RsaOaep => "Aes128Sha256RsaOaep"
+  | .aes256Sha256RsaPss => "Aes256Sha256RsaPss" | .unknown => "Unknown"
+
+/-- the `PrivateKey::sign_*` / `PublicKey::verify_*` method that implements a digest/padding pair -/
+def algFn (prefix_ : String) : Hash × SigPad → String
+  | (.sha1, .pkcs1) => prefix_ ++ "_sha1"
+  | (.sha256, .pkcs1) => prefix_ ++ "_sha256"
+  | (.sha256, .pss) => prefix_ ++ "_sha256_pss"
+  | (.sha1, .pss) => prefix_ ++ "_sha1_pss"
+
+open OpcuaVerif.Generated.CryptoPolicy in
+/-- regenerated from `security_policy.rs` / `mod.rs` on every check: signing and verifying use
+the SAME digest/padding for every policy, namely the model's, and the algorithm URI is the
+model's. -/
+theorem model_matches_source (p : Policy) :
+    p.sigAlg?.map (algFn "sign") = lookup signFn p.rustName ∧
+    p.sigAlg?.map (algFn "verify") = lookup verifyFn p.rustName ∧
+    p.sigUri? = lookup sigUri p.rustName := by
+  cases p <;> decide +kernel
 
 /-! ### non-vacuity -/
 
